@@ -28,9 +28,11 @@ Included(bh) ==
       [] bh = "extends" -> <<Extends(LS(NT.t2)), Block("bx", <<T(<<60>>), PrintS(Var("a")), PrintS(Var("n")), T(<<62>>)>>)>>
 BaseT2 == <<T(<<94>>), Block("bx", <<T(<<100>>)>>), Block("bb", <<T(<<66, 51>>)>>), T(<<36>>)>>
 
-Withs == {"none", "over", "new"}
+Withs == {"none", "over", "new", "null", "undef"}
 WithExpr(w) == CASE w = "over" -> Hash(<<LS(NT.a)>>, <<LI(9)>>)
                  [] w = "new"  -> Hash(<<LS(NT.n)>>, <<Bin("+", Var("b"), LI(3))>>)
+                 [] w = "null" -> Hash(<<LS(NT.a)>>, <<Lit(Null)>>)                 \* null overrides like any value
+                 [] w = "undef" -> Hash(<<LS(NT.a), LS(NT.b)>>, <<Var("nosuchvar"), LI(8)>>)
                  [] OTHER      -> Lit(Null)
 NameForms == {"static", "computed", "variable", "missing", "missingvar"}
 NameExpr(nf) == CASE nf = "static"   -> LS(NT.t1)
